@@ -550,7 +550,7 @@ def rows_check(ctx, pkg, test, module, env=None, timeout=1200, workers=2, rows_n
             if p.returncode != 0:
                 d = os.path.join(out, "shard-%d" % k)
                 m = re.search(r"^panic: (.*)$", o, re.M)
-                own = m and "test timed out" not in m.group(1) and re.search(r"/repo/(internal|cmd)/[^\n]*\.go:\d+", o) \
+                own = m and "test timed out" not in m.group(1) and re.search(r"/repo/(internal|cmd)/(?![^\n]*zzverif_)[^\n]*\.go:\d+", o) \
                     and not re.search(r"^panic: .*\n(?:.*\n){0,6}.*zzverif_", o, re.M)
                 if own and attempts[k] < 25 and os.path.exists(os.path.join(d, "current.json")):
                     attempts[k] += 1
